@@ -167,6 +167,21 @@ func rdConcretise(j int, rc rdCase) rdConc {
 			f.FType, f.typeSrc = "named", fmt.Sprintf("N%d", j)
 			extra += fmt.Sprintf("\n// N%d is a named struct.\ntype N%d struct {\n\t// NF doc.\n\tNF int\n}\n", j, j)
 			cc.Fields = append(cc.Fields, f)
+		case "namedIface": // a field of a same-package interface type
+			f := scalarF("F", true, rc.FDoc)
+			f.FType, f.typeSrc = "named", fmt.Sprintf("I%d", j)
+			extra += fmt.Sprintf("\n// I%d is an interface of this package.\ntype I%d interface {\n\tName() string\n}\n", j, j)
+			cc.Fields = append(cc.Fields, f, scalarF("K", true, []string{"plain"}))
+		case "namedGenericInst": // a field whose type is an instantiation of a generic struct of this package
+			f := scalarF("F", true, rc.FDoc)
+			f.FType, f.typeSrc = "named", fmt.Sprintf("L%d[string]", j)
+			extra += fmt.Sprintf("\n// L%d is a generic list.\ntype L%d[T any] struct {\n\t// Items doc.\n\tItems []T\n}\n", j, j)
+			cc.Fields = append(cc.Fields, f, scalarF("K", true, []string{"plain"}))
+		case "namedScalar": // a field of a same-package named scalar type
+			f := scalarF("F", true, rc.FDoc)
+			f.FType, f.typeSrc = "named", fmt.Sprintf("Sc%d", j)
+			extra += fmt.Sprintf("\n// Sc%d is a named scalar.\ntype Sc%d int\n", j, j)
+			cc.Fields = append(cc.Fields, f)
 		case "two":
 			k := scalarF("K", true, []string{"percent", "atname"})
 			k.typeSrc = "string"
@@ -447,7 +462,7 @@ func (runtimedocFam) Rand(n int, rng *rand.Rand, emit func(cas any)) error {
 		return out
 	}
 	kinds := []string{"struct", "genericStruct", "scalar", "map", "slice", "func"}
-	fps := []string{"one", "withUnexported", "anonStruct", "emptyNamed", "embedValue", "embedPointer", "embedDocumented", "namedCovered", "two"}
+	fps := []string{"one", "withUnexported", "anonStruct", "emptyNamed", "embedValue", "embedPointer", "embedDocumented", "namedCovered", "two", "namedIface", "namedGenericInst", "namedScalar"}
 	for i := 0; i < n; i++ {
 		k := kinds[rng.IntN(len(kinds))]
 		c := map[string]any{"kind": k, "doc": doc(7, true), "fieldpat": "none", "fdoc": []string{}}
